@@ -186,7 +186,7 @@ func (g *Gen) findLoops() {
 	}
 	// ordinals: by source position of the loop statement
 	var lis []*loopInfo
-	for _, li := range g.loops {
+	for _, li := range g.sortedLoops() {
 		li.pos = g.loopPos(li)
 		lis = append(lis, li)
 	}
@@ -330,7 +330,7 @@ func (g *Gen) merge(b *ssa.BasicBlock, es []edge) (*State, Term) {
 			allCells[al] = true
 		}
 	}
-	for al := range allCells {
+	for _, al := range sortedAllocs(allCells) {
 		lay := g.layout(g.allocType(al))
 		res := make([]Term, len(lay))
 		for i, c := range lay {
@@ -781,11 +781,21 @@ func (g *Gen) instr(ins ssa.Instruction, b *ssa.BasicBlock, in map[*ssa.BasicBlo
 				cx := g.ctxHere()
 				if sv := g.env[x]; sv != nil {
 					cx.vars["lastcall"] = sv.V
+					// components of a tuple result: lastcall0, lastcall1, ...
+					if tup, ok := sv.V.T.(*types.Tuple); ok {
+						off := 0
+						for i := 0; i < tup.Len(); i++ {
+							n := len(g.layout(tup.At(i).Type()))
+							if off+n <= len(sv.V.C) {
+								cx.vars[fmt.Sprintf("lastcall%d", i)] = Val{T: tup.At(i).Type(), C: sv.V.C[off : off+n]}
+							}
+							off += n
+						}
+					}
 				}
 				for _, gd := range g.con.AfterGhost[k] {
-					if g.curLoop != nil {
-						oos("ghost assignment after call %s is inside a loop", k)
-					}
+					// inside a loop the ghost holds the value of the last modelled iteration (the one that leaves
+					// the loop or returns): paths through a back edge end at the invariant obligations
 					g.assignGhost(gd.Name, g.evalSpec(gd.Expr, cx))
 				}
 				for _, c := range g.con.After[k] {
@@ -904,8 +914,8 @@ func (g *Gen) toEdge(from, to *ssa.BasicBlock, cond Term, in map[*ssa.BasicBlock
 	}
 	c := g.define(fmt.Sprintf("edge_%d_%d", from.Index, to.Index), cond)
 	// loop exit clauses: checked separately on each exit edge (small queries), then available after the join
-	for _, li := range g.loops {
-		if li.spec == nil || len(li.spec.Exit) == 0 || !li.blocks[from] || li.blocks[to] {
+	for _, li := range g.sortedLoops() {
+		if li.spec == nil || (len(li.spec.Exit) == 0 && len(li.spec.ExitGhost) == 0) || !li.blocks[from] || li.blocks[to] {
 			continue
 		}
 		saved, savedPos, savedLoop := g.reach, g.curPos, g.curLoop
@@ -918,6 +928,9 @@ func (g *Gen) toEdge(from, to *ssa.BasicBlock, cond Term, in map[*ssa.BasicBlock
 		}
 		for _, ex := range li.spec.Exit {
 			g.obligeClause(fmt.Sprintf("exit[%d]", li.ordinal), g.evalBool(ex.Expr, cx, ex), ex)
+		}
+		for _, gd := range li.spec.ExitGhost {
+			g.assignGhost(gd.Name, g.evalSpec(gd.Expr, cx))
 		}
 		g.reach, g.curPos, g.curLoop = saved, savedPos, savedLoop
 	}
